@@ -58,6 +58,20 @@ package lruset
 //@   ensures lruWF(s)
 //@   label C28.visit.frame
 //@   ensures s.wayCount == old(s.wayCount) && s.keyMap == old(s.keyMap)
+//@   label C28.visit.count
+//@   ensures int(s.visitCount) == int(old(s.visitCount)) + 1 && s.lastVisits[wayID] == s.visitCount
 //@   assigns s.visitList, s.visitCount, elems(s.visitList), elems(s.lastVisits)
 //@   loop 0: invariant -1 <= rangeindex && rangeindex < len(s.visitList)
 //@   loop 0: invariant forall j in 0..rangeindex + 1 :: s.visitList[j] != wayID
+
+//@ fn NewSet
+//@   property C28
+//@   requires 0 <= numWays && numWays <= 1<<40
+//@   label C28.new.shape
+//@   ensures result.wayCount == numWays && len(result.visitList) == int(numWays) && len(result.lastVisits) == int(numWays) && result.keyMap != nil
+//@   label C28.new.order
+//@   ensures forall k in 0..int(numWays) :: result.visitList[k] == k
+//@   label C28.new.wf
+//@   ensures lruWF(result)
+//@   loop 0: invariant lruWF(s) && 0 <= j && j <= numWays && len(s.visitList) == int(j) && s.wayCount == numWays && s.visitCount == j
+//@   loop 0: invariant forall k in 0..int(j) :: s.visitList[k] == k
